@@ -58,6 +58,9 @@ type FuncContract struct {
 	NoReturn bool
 	Inline   bool
 	Modifies []string
+	Iterates *Clause          // callee: "iterates <map expr>": calls its function argument on every key of the map in ascending key order
+	Visits   map[int][]*Clause // caller: "visit K invariant expr": invariant of the K-th iterating call in this function
+	Implements string
 	After    []*AfterClause
 	Reveal   []string
 	Frames   []*FrameClause
@@ -86,6 +89,7 @@ type FrameClause struct {
 // AfterClause: "after <callee key> [#k] assert #label expr" — a proof hint checked (then assumed) right after the k-th
 // (default: every) call to the callee in the function under contract; "result" names the call's result.
 type AfterClause struct {
+	Assume  bool
 	Callee  string
 	Ordinal int
 	Clause  *Clause
@@ -99,6 +103,7 @@ type SpecDef struct {
 	IsPred bool
 	IsUfun bool
 	Opaque bool
+	Reads  []string // ufun: heap-name prefixes the abstract function may depend on (their current versions become arguments)
 	Src    string
 	File   string
 	Line   int
@@ -135,7 +140,7 @@ type Contracts struct {
 var clauseKW = map[string]bool{
 	"spec": true, "pred": true, "ufun": true, "axiom": true, "lemma": true, "func": true,
 	"requires": true, "ensures": true, "loop": true, "trusted": true, "pure": true, "noreturn": true,
-	"inline": true, "modifies": true, "reveal": true, "after": true, "use": true, "decreases": true, "case": true, "frame": true,
+	"inline": true, "modifies": true, "reveal": true, "after": true, "implements": true, "iterates": true, "visit": true, "use": true, "decreases": true, "case": true, "frame": true,
 }
 
 var labelRe = regexp.MustCompile(`^#([A-Za-z0-9_\-:.]+)\s*`)
@@ -372,10 +377,14 @@ func (cs *Contracts) loadFile(path string) error {
 				return fmt.Errorf("%s:%d: after outside func", path, rc.line)
 			}
 			parts := strings.SplitN(rest, " assert ", 2)
-			if len(parts) != 2 {
-				return fmt.Errorf("%s:%d: after needs '<callee> assert <expr>'", path, rc.line)
-			}
 			ac := &AfterClause{}
+			if len(parts) != 2 {
+				parts = strings.SplitN(rest, " assume ", 2)
+				ac.Assume = true
+			}
+			if len(parts) != 2 {
+				return fmt.Errorf("%s:%d: after needs '<callee> assert|assume <expr>'", path, rc.line)
+			}
 			cf := strings.Fields(parts[0])
 			ac.Callee = cf[0]
 			if len(cf) > 1 {
@@ -390,7 +399,45 @@ func (cs *Contracts) loadFile(path string) error {
 				return err
 			}
 			ac.Clause = c
+			if ac.Assume && !onlyAxiomInstances(c.Expr) {
+				return fmt.Errorf("%s:%d: 'after ... assume' may only contain engine-axiom instances (cnt_mono) under && and forall", path, rc.line)
+			}
 			curF.After = append(curF.After, ac)
+		case "iterates":
+			if curF == nil {
+				return fmt.Errorf("%s:%d: iterates outside func", path, rc.line)
+			}
+			c, err := mkClause("iterates", rest)
+			if err != nil {
+				return err
+			}
+			curF.Iterates = c
+		case "visit":
+			if curF == nil {
+				return fmt.Errorf("%s:%d: visit outside func", path, rc.line)
+			}
+			parts := strings.Fields(rest)
+			if len(parts) < 3 || parts[1] != "invariant" {
+				return fmt.Errorf("%s:%d: expected 'visit K invariant expr'", path, rc.line)
+			}
+			n, err := strconv.Atoi(parts[0])
+			if err != nil {
+				return fmt.Errorf("%s:%d: visit ordinal: %v", path, rc.line, err)
+			}
+			r2 := strings.TrimSpace(strings.TrimPrefix(strings.TrimSpace(strings.TrimPrefix(rest, parts[0])), "invariant"))
+			c, err := mkClause("invariant", r2)
+			if err != nil {
+				return err
+			}
+			if curF.Visits == nil {
+				curF.Visits = map[int][]*Clause{}
+			}
+			curF.Visits[n] = append(curF.Visits[n], c)
+		case "implements":
+			if curF == nil {
+				return fmt.Errorf("%s:%d: implements outside func", path, rc.line)
+			}
+			curF.Implements = strings.TrimSpace(rest)
 		case "reveal":
 			if curF == nil {
 				return fmt.Errorf("%s:%d: reveal outside func", path, rc.line)
@@ -467,6 +514,14 @@ func parseSpecDef(kw, rest string) (*SpecDef, error) {
 		sd.Opaque = true
 		rest = strings.TrimSpace(strings.TrimPrefix(rest, "opaque "))
 	}
+	if i := strings.Index(rest, " reads "); i >= 0 && kw == "ufun" {
+		for _, r := range strings.Split(rest[i+7:], ",") {
+			if r = strings.TrimSpace(r); r != "" {
+				sd.Reads = append(sd.Reads, r)
+			}
+		}
+		rest = strings.TrimSpace(rest[:i])
+	}
 	sig, body := rest, ""
 	if i := strings.Index(rest, ":="); i >= 0 {
 		sig, body = strings.TrimSpace(rest[:i]), strings.TrimSpace(rest[i+2:])
@@ -514,4 +569,18 @@ func splitTopLevel(s string) []string {
 		}
 	}
 	return append(out, s[start:])
+}
+
+// onlyAxiomInstances: the expression is built from cnt_cong(...) calls with && and forall only.
+func onlyAxiomInstances(e CExpr) bool {
+	switch x := e.(type) {
+	case *CBinary:
+		return x.Op == "&&" && onlyAxiomInstances(x.L) && onlyAxiomInstances(x.R)
+	case *CQuant:
+		return x.Forall && onlyAxiomInstances(x.Body)
+	case *CCall:
+		id, ok := x.Fun.(*CIdent)
+		return ok && id.Name == "cnt_mono"
+	}
+	return false
 }
